@@ -21,3 +21,8 @@ selftest:
 
 clean:
 	rm -rf out
+
+# optional: unbounded-n inductive invariant of the executor core (Apalache, about 10 s)
+apalache:
+	apalache-mc check --cinit=ConstInit --init=Init --inv=IndInv --length=0 --out-dir=out/apa spec/ExecInd.tla | grep "outcome"
+	apalache-mc check --cinit=ConstInit --init=IndInit --inv=IndInv --length=1 --out-dir=out/apa spec/ExecInd.tla | grep "outcome"
